@@ -170,9 +170,17 @@ func checkC08(c *Ctx) {
 	// the loader reconstructs the owner exactly as the live topic determines it (shared with C06)
 	c.checkOwnerWriters()
 	c.checkSnapshotBeforeChange()
+	c.checkOwnerTransfer()
+	// what get.desc reports does not depend on whether the marks were reloaded
+	c.checkReportClamp()
+	// a failed delete of a live topic leaves it as it was (un-paused)
+	c.checkPauseBeforeStoreDelete()
 	c.checkLoaderRecordsFromOneRow()
 	c.checkActingUserNotSession("C08.1c-store-write-keyed-by-acting-user", "store-writes")
 	c.checkDelIdRecorded()
+	c.checkCachedMapsNotMutatedInPlace()
+	c.checkP2PRecordsAgree()
+	c.checkUpdateKeysIndependent()
 }
 
 // checkCacheAfterStore: in a handler that persists a change, the mirrored topic fields are
